@@ -82,16 +82,24 @@ def parseSess (s : String) : Option Sess :=
   match first.splitOn ":" with
   | [sid, r, n, o] => do
     let (r, retryable) ← parseRole r
-    let n ← n.toNat?
+    -- `<n>` or `<n>f<mask>`: bit 0 / bit 1 of the mask = Close() of the session's stream to relayer 1 / 2 fails
+    let (n, mask) ← match n.splitOn "f" with
+      | [n] => do pure (← n.toNat?, 0)
+      | [n, m] => do pure (← n.toNat?, ← m.toNat?)
+      | _ => none
+    if mask > 3 then none else
+    let opened : List Strm := match r with
+      | .coord => [⟨1, mask % 2 == 1⟩, ⟨2, mask / 2 == 1⟩]
+      | .part => [⟨1, mask % 2 == 1⟩]
     let o ← parseOutcome o
     if !(validFor r o && n ≥ 1) then none else
     match second with
     | none =>
       -- a retryable process whose failure is classified always gets a second attempt: it has to be scripted
-      if retryable && classified o then none else pure ⟨sid, r, n, o, retryable, none⟩
+      if retryable && classified o then none else pure ⟨sid, r, n, o, retryable, none, opened⟩
     | some t => do
       let t ← parseSecond t
-      if retryable && classified o && validSecond r o t then pure ⟨sid, r, n, o, true, some t⟩ else none
+      if retryable && classified o && validSecond r o t then pure ⟨sid, r, n, o, true, some t, opened⟩ else none
   | _ => none
 
 def showRet : Ret → String
@@ -104,13 +112,13 @@ def plusList (xs : List Nat) : String := "+".intercalate (xs.map toString)
 
 def showReport (r : Report) : String :=
   "/".intercalate [showRet r.ret, toString r.sub, toString r.unsub, toString r.close, toString r.live,
-    toString r.streams, "0", plusList r.runs, plusList r.stops, if r.pend then "1" else "0",
+    toString r.streams, "0", toString r.stale, plusList r.runs, plusList r.stops, if r.pend then "1" else "0",
     toString r.elive, toString r.estreams]
 
 /-- report and the count of streams the host still has open -/
 def parseReport (s : String) : Option (Report × Nat) :=
   match s.splitOn "/" with
-  | [ret, sub, unsub, close, live, streams, op, runs, stops, pend, elive, estreams] => do
+  | [ret, sub, unsub, close, live, streams, op, dead, runs, stops, pend, elive, estreams] => do
     let ret ← parseRet ret
     let sub ← sub.toNat?
     let unsub ← unsub.toNat?
@@ -118,12 +126,13 @@ def parseReport (s : String) : Option (Report × Nat) :=
     let live ← live.toNat?
     let streams ← streams.toNat?
     let op ← op.toNat?
+    let dead ← dead.toNat?
     let runs ← (runs.splitOn "+").mapM String.toNat?
     let stops ← (stops.splitOn "+").mapM String.toNat?
     let pend ← if pend = "1" then some true else if pend = "0" then some false else none
     let elive ← elive.toNat?
     let estreams ← estreams.toNat?
-    pure (⟨ret, sub, unsub, close, live, streams, runs, stops, pend, elive, estreams⟩, op)
+    pure (⟨ret, sub, unsub, close, live, streams, dead, runs, stops, pend, elive, estreams⟩, op)
   | _ => none
 
 def handle (op : String) (args : List String) (impl : String) : Option Verdict :=
